@@ -19,7 +19,7 @@ TRUSTED = [
 def classify(chk, s, r, an, findings):
     """map one C13 anomaly to ('ok' | 'known' | 'violation', text)"""
     kind = an[0] if isinstance(an, tuple) else an
-    if kind in ("AActiveOver", "AQueuedWhileFree") and oracle_only(s):
+    if kind in ("AActiveOver", "AQueuedWhileFree", "AShedKeyRunning") and oracle_only(s):
         return "ok", "not judged: the clause is validated on the model's run, which does not carry this scenario"
     if kind == "ASilentLoss" and oracle_only(s):
         j, opi = an[1], an[2]
@@ -68,6 +68,14 @@ def classify(chk, s, r, an, findings):
         return "violation", (f"settled point at op #{opi}: {an[2]} worker(s) counted as working but only {an[3]} really running a job: "
                              "an accepted job waits at a live worker that runs nothing (e.g. the replacement of a dead worker was "
                              "not given its predecessor's queue)")
+    if kind == "AShedKeyRunning":
+        j, k, opi = an[1], an[2], an[3]
+        if any(isinstance(m, tuple) and m[0] == "AShedKeyRunning" and m[1] == j for m in r["m13"]):
+            return "ok", "the model's own run sheds the same job (it was still in the factory queue when its key started elsewhere)"
+        return "violation", (f"job {j} (key {k}) was discarded with reason Loadshed in op #{opi} while key {k} was being processed under "
+                             "sticky-queuer routing: it was parked at that worker, whose private queue has no limit under a "
+                             "factory-queueing router -- the applicable queue (the factory queue) was not at its limit; the model's "
+                             "run of the same scenario does not shed it")
     if kind == "AQueuedWhileFree":
         opi = an[1]
         if any(isinstance(m, tuple) and m[0] == "AQueuedWhileFree" and m[1] == opi for m in r["m13"]):
@@ -109,6 +117,8 @@ def run(chk):
         scns += [gen_empty_pool_scenario(chk.rng) for _ in range(n // 8)]
         scns += [gen_shrink_window_scenario(chk.rng) for _ in range(n // 6)]
         scns += [gen_backlog_scenario(chk.rng) for _ in range(n // 6)]
+        scns += [gen_cursor_scenario(chk.rng) for _ in range(n // 8)]
+        scns += [gen_shed_update_scenario(chk.rng) for _ in range(n // 8)]
     res, htbl = evaluate("C13", build, scns)
 
     distinct = set()
